@@ -4,7 +4,10 @@
 // c0 = initial value of dispenso::nextThread (unsigned 64-bit decimal).  prog tokens: T threadId()   Y harness scheduling point
 // Output (one line): steps t:site ... | results t:tid=v ... | blocked | ctr <nextThread as unsigned> | status S
 // (result values are printed as signed 64-bit; props/C45.py reduces them mod 2^64)
+#include <algorithm>
+#include <ctime>
 #include <atomic>
+#include <thread>
 #include <cstdint>
 #include <cstdio>
 #include <cstdlib>
@@ -29,6 +32,39 @@ int main() {
     pid_t pid = fork();
     if (pid == 0) {
       alarm(20);
+      if (line.compare(0, 7, "stress ") == 0) {
+        // native contention probe (no scheduler): <threads> <rounds>; every round starts fresh threads behind a spin barrier so that their
+        // FIRST threadId() calls collide; prints the ids of the first round in which two threads got the same id, else of the last round
+        alarm(300);
+        time_t t0 = time(nullptr);   // wall-clock cap: a loaded machine gets fewer rounds, never a failure
+        int nth = 0, rounds = 0;
+        sscanf(line.c_str() + 7, "%d %d", &nth, &rounds);
+        dispenso::nextThread.store(1000);
+        std::vector<unsigned long long> ids(static_cast<size_t>(nth)), bad;
+        int badRound = -1;
+        for (int r = 0; r < rounds && badRound < 0 && time(nullptr) - t0 < 60; ++r) {
+          std::atomic<int> ready{0};
+          std::atomic<bool> go{false};
+          std::vector<std::thread> thr;
+          for (int t = 0; t < nth; ++t)
+            thr.emplace_back([&, t]() {
+              ready.fetch_add(1);
+              while (!go.load(std::memory_order_acquire)) {}
+              ids[static_cast<size_t>(t)] = dispenso::threadId();
+            });
+          while (ready.load() < nth) std::this_thread::yield();
+          go.store(true, std::memory_order_release);
+          for (auto& x : thr) x.join();
+          std::vector<unsigned long long> s(ids);
+          std::sort(s.begin(), s.end());
+          if (std::adjacent_find(s.begin(), s.end()) != s.end()) badRound = r;
+        }
+        printf("stress round %d ids", badRound);
+        for (auto v : ids) printf(" %llu", v);
+        printf("\n");
+        fflush(stdout);
+        _exit(0);
+      }
       std::vector<std::string> parts;
       std::stringstream ss(line);
       std::string part;
